@@ -197,7 +197,7 @@ def run(ctx):
                 ctx.violation(f"parse/index/no-out-of-range-message/index={iclass}", f"--packet {idx} with {n} packets: printed {rec.printed!r}, pprinted {len(rec.pprinted)} objects", wit)
 
     try:
-        nmax = ctx.size(14, 40)
+        nmax = ctx.size(16, 120)
         item = 0
         for n in range(0, nmax + 1):
             pk = mkpackets(n)
